@@ -20,4 +20,54 @@ structure LnBinomialOneSpec [SF ℝ] : Prop where
   ln_binomial_one_zero : (SF.ln_binomial 1 0 : ℝ) = 0
   ln_binomial_one_one : (SF.ln_binomial 1 1 : ℝ) = 0
 
+/-- A concrete `SF ℝ` (true Γ, `ln Γ`, `ln C(n,k)`; everything else arbitrary) showing the premise
+    structures are satisfiable.  Not an instance: theorems stay relative to an arbitrary `SF ℝ`. -/
+@[reducible] noncomputable def sfWitness : SF ℝ where
+  beta := fun _ _ => 0
+  beta_inc := fun _ _ _ => 0
+  beta_reg := fun _ _ _ => 0
+  checked_beta := fun _ _ => default
+  checked_beta_inc := fun _ _ _ => default
+  checked_beta_reg := fun _ _ _ => default
+  checked_ln_beta := fun _ _ => default
+  inv_beta_reg := fun _ _ _ => 0
+  ln_beta := fun _ _ => 0
+  erf := fun _ => 0
+  erf_inv := fun _ => 0
+  erfc := fun _ => 0
+  erfc_inv := fun _ => 0
+  polynomial := fun _ _ => 0
+  integral := fun _ _ => none
+  binomial := fun n k => (Nat.choose n.toNat k.toNat : ℝ)
+  checked_multinomial := fun _ _ => none
+  factorial := fun n => (Nat.factorial n.toNat : ℝ)
+  ln_binomial := fun n k => Real.log (Nat.choose n.toNat k.toNat : ℝ)
+  ln_factorial := fun n => Real.log (Nat.factorial n.toNat : ℝ)
+  multinomial := fun _ _ => 0
+  checked_gamma_li := fun _ _ => default
+  checked_gamma_lr := fun _ _ => default
+  checked_gamma_ui := fun _ _ => default
+  checked_gamma_ur := fun _ _ => default
+  digamma := fun _ => 0
+  gamma := Real.Gamma
+  gamma_li := fun _ _ => 0
+  gamma_lr := fun _ _ => 0
+  gamma_ui := fun _ _ => 0
+  gamma_ur := fun _ _ => 0
+  inv_digamma := fun _ => 0
+  ln_gamma := fun x => Real.log (Real.Gamma x)
+  gen_harmonic := fun _ _ => 0
+  harmonic := fun _ => 0
+  checked_logit := fun _ => none
+  logistic := fun _ => 0
+  logit := fun _ => 0
+
+/-- non-vacuity of the premise structures -/
+theorem gammaDensitySpec_witness : @GammaDensitySpec sfWitness :=
+  @GammaDensitySpec.mk sfWitness (fun _ _ => rfl) (fun _ _ => rfl)
+theorem lnBinomialOneSpec_witness : @LnBinomialOneSpec sfWitness :=
+  @LnBinomialOneSpec.mk sfWitness
+    (show Real.log ((Nat.choose (1 : Int).toNat (0 : Int).toNat : ℕ) : ℝ) = 0 by simp)
+    (show Real.log ((Nat.choose (1 : Int).toNat (1 : Int).toNat : ℕ) : ℝ) = 0 by simp)
+
 end Statrs.Spec
